@@ -23,6 +23,8 @@ FAMILY_BOUNDS = {
     'search': '~80 patterns x ~40 texts x every char-boundary start offset: entry-point coherence, offset validity, group metadata',
     'analyze': '~2000 patterns from a 3-level grammar (incl. huge repeat counts) : Info facts vs match-length sets enumerated up to 14 characters',
     'parse': 'all sequences of <= 3 tokens over a 63-token vocabulary of syntax fragments (254 079 patterns): no panic in Regex::new, parse-error position <= length, back-reference numbers < length',
+    'expand': 'all templates of length <= 6 (quick: as many as fit in the time budget, lengths ascending; >= all of length <= 5) over {$ { } \\ g < > 0 1 9 x _ e-acute space} x 3 regex/captures setups (named, numbered, unmatched groups) x both expanders: expansion, append_expansion, escape round trip, check, Captures::expand',
+    'replace': '~70 patterns x ~35 texts x backtrack limits {default,1,3} x limits 0..3 x 12 templates + NoExpand + closures',
     'quote': 'all strings of length <= 3 over a 28-symbol alphabet (every meta-character, 2-4 byte characters) x 5 host patterns x 7 texts',
 }
 
